@@ -42,6 +42,7 @@ const HOSTILE: &[(&str, &str)] = &[
     ("leading-nbsp", "\u{a0}Shop"),
     ("colon-start", ":-D thanks"),
     ("colon-space-start", ": see invoice 12"),
+    ("open-paren-only", "A(1 tea"),
     ("benign", "Plain Shop"),
 ];
 
